@@ -9,11 +9,17 @@ import (
 	"sync"
 	"sync/atomic"
 	"time"
+
+	"github.com/go-text/typesetting/font"
+	"github.com/go-text/typesetting/harfbuzz"
+
+	"verifharness/internal/gen"
 )
 
 const (
-	extraSoloRuns    = 6
-	maxChildLogBytes = 4 << 20 // a child stops after the round in which its race log passes this size
+	probeBlowupFactor = 16
+	extraSoloRuns     = 6
+	maxChildLogBytes  = 4 << 20 // a child stops after the round in which its race log passes this size
 )
 
 // roundSpec fixes everything about a round except the schedule.
@@ -31,9 +37,10 @@ type childSpec struct {
 	Ops         int         `json:"ops"`
 	MaxDistinct int         `json:"max_distinct_programs"` // goroutine g runs program g % MaxDistinct
 	Rounds      []roundSpec `json:"rounds"`
-	Repeats     int         `json:"repeats"` // every round is executed this many times (replay)
-	Solo        bool        `json:"solo"`    // compare with the programs run alone
-	Out         string      `json:"out"`     // JSONL records
+	Faces       []faceID    `json:"faces,omitempty"` // probe mode
+	Repeats     int         `json:"repeats"`         // every round is executed this many times (replay)
+	Solo        bool        `json:"solo"`            // compare with the programs run alone
+	Out         string      `json:"out"`             // JSONL records
 	RaceLog     string      `json:"race_log"`
 	SysDir      string      `json:"sys_dir"`
 }
@@ -58,10 +65,14 @@ type mismatch struct {
 
 // rec is one line of the child's output file.
 type rec struct {
-	Type        string `json:"type"` // header | begin | round | done
+	Type        string `json:"type"` // header | begin | round | stopped | pbegin | pend | done
 	Pid         int    `json:"pid,omitempty"`
 	RaceEnabled bool   `json:"race_enabled,omitempty"`
 	Mode        string `json:"mode,omitempty"`
+
+	Face     string `json:"face,omitempty"`      // probe mode
+	Flag     string `json:"flag,omitempty"`      // probe mode: "" | unusable | blowup
+	ProbeMax int    `json:"probe_max,omitempty"` // probe mode: largest glyph count / input length seen
 
 	Round         int            `json:"round"`
 	Rep           int            `json:"rep,omitempty"`
@@ -114,6 +125,13 @@ func childMain(specPath string) {
 	switch cs.Mode {
 	case "selftest":
 		selfTestRace()
+	case "probe":
+		for _, id := range cs.Faces {
+			emit(rec{Type: "pbegin", Face: id.String()})
+			t0 := time.Now()
+			flag, mx := probeFace(id)
+			emit(rec{Type: "pend", Face: id.String(), Flag: flag, ProbeMax: mx, LoadMs: time.Since(t0).Milliseconds()})
+		}
 	case "race", "overlap":
 		if cs.Repeats < 1 {
 			cs.Repeats = 1
@@ -320,4 +338,47 @@ func runRound(cs *childSpec, rs roundSpec, rep int, logSize func() int64) rec {
 	}
 	r.LogEnd = logSize()
 	return r
+}
+
+// probeFace screens a corpus face before it may be drawn for a round, on a
+// private parse and a single goroutine: a fixed series of shapings with texts
+// from the face's own cmap. Faces on which the shaper multiplies the input
+// (the upstream budget-exhaustion tests, e.g. a morx insertion loop that fills
+// the buffer up to its 16384-glyph budget) would make a 64-goroutine round
+// under the race detector last for minutes; they are excluded from the
+// workload (that behaviour is C01's subject). The criterion is the output
+// length, not time, so the selection is deterministic.
+func probeFace(id faceID) (flag string, maxRatio int) {
+	info := getScout(id)
+	if !info.OK || len(info.Runes) < 1 {
+		return "unusable", 0
+	}
+	ft, _, err := loadFace(id)
+	if err != nil {
+		return "unusable", 0
+	}
+	e := &env{fonts: []*sharedFont{{Slot: 0, Kind: "probe", ID: id, Info: info, Font: ft}}}
+	g := &gstate{e: e, rng: gen.New(1, "C17/probe", 0), res: &result{}}
+	g.faces = make([]*font.Face, 1)
+	g.hbFonts = make([]*harfbuzz.Font, 1)
+	n := 24
+	if len(ft.Morx) > 0 {
+		n = 64
+	}
+	for i := 0; i < n; i++ {
+		in := g.shapeInput(0)
+		nOut := 0
+		func() {
+			defer func() { recover() }()
+			out := g.shaper.Shape(in)
+			nOut = len(out.Glyphs)
+		}()
+		if r := nOut / (len(in.Text) + 1); r > maxRatio {
+			maxRatio = r
+		}
+		if nOut > probeBlowupFactor*len(in.Text)+64 {
+			return "blowup", maxRatio
+		}
+	}
+	return "", maxRatio
 }
